@@ -139,7 +139,7 @@ def type_body(m, groups, prefix):
     return x
 
 
-def schema_text(models, open_content=None):
+def schema_text(models, open_content=None, wrap=None):
     """One global element r<i> per model.  open_content: None | (mode, leafkind) local openContent on every type |
     ('default-' + mode, leafkind, appliesToEmpty) a schema-level defaultOpenContent."""
     body = []
@@ -159,6 +159,12 @@ def schema_text(models, open_content=None):
             mode, wk = open_content[:2]
             oc = ('<xs:openContent mode="%s"><xs:any namespace="%s" processContents="lax"/>'
                   '</xs:openContent>' % (mode, ns[wk]))
+        if wrap == 'group-local':
+            # the model is the anonymous type of a LOCAL element declared inside a NAMED group
+            body.append('<xs:group name="W%d"><xs:sequence><xs:element name="loc"><xs:complexType>%s%s</xs:complexType>'
+                        '</xs:element></xs:sequence></xs:group><xs:element name="r%d"><xs:complexType><xs:group '
+                        'ref="t:W%d"/></xs:complexType></xs:element>' % (i, oc, x, i, i))
+            continue
         body.append('<xs:element name="r%d"><xs:complexType>%s%s</xs:complexType></xs:element>'
                     % (i, oc, x))
     extra = GLOBALS_MULTIHEAD if any(l[1] in 'pqj' for m in models for l in leaves(m)) else ''
